@@ -538,7 +538,7 @@ namespace occa {
         errorOn(macroTokens[i],
                 "Can only stringify macro arguments");
         for (int j = (i - 1); j < tokenCount; ++j) {
-          delete macroTokens[i];
+          delete macroTokens[j];
         }
         macroTokens.clear();
         freeTokenVector(newMacroTokens);
